@@ -107,7 +107,7 @@ def direct(ck, tf):
 
 
 def main(tier, seed):
-    return dbtie.db_check("C11", tier, seed, PROFILE, 500, 6000, "Prop_C11",
+    return dbtie.db_check("C11", tier, seed, PROFILE, 800, 6000, "Prop_C11",
                           "user callables and re are an environment the theorems quantify over; the tie instantiates them with the twin table",
                           direct=direct, extra_cov={"extreme_values": "points at datetime.max / near datetime.min, field values +-10**400, nan, the largest float, "
                                                     "a 70000-character tag value, empty keys, updates to such values (static and from a callable failing on later points): "
